@@ -178,6 +178,11 @@ def rule_pr2(ctx: Ctx) -> RuleResult:
                             if any(e2.d.get("raised") for e2 in p2.trace) or p2.outcome == "raise":
                                 continue
                             outs = [e2 for e2 in p2.trace if e2.k == "emit" and e2.method in ("on_next", "on_error") and e2.target == ("obs", "down")]
+                            if not outs:
+                                from .io import _eof_and_empty_facts
+                                if _eof_and_empty_facts(p2)[1] is True and not any(e2.k in ("call", "mutate") for e2 in p2.trace):
+                                    r.ob(True)      # an empty chunk carries nothing to decode: nothing is withheld
+                                    continue
                             r.ob(bool(outs), lambda p2=p2, cfg2=cfg2, nspec=nspec: mk_finding(
                                 "PR-2", nspec, None, cfg2, p2, "a chunk is consumed without emitting the codec's output for it: the output is withheld "
                                 "(until a later chunk or the end of the stream)", extra="chunk-withheld"))
